@@ -10,3 +10,5 @@ def run(prog, rep):
                        'outside any static argument and is not decided.')
     r_close.run(prog, rep)
     r_err.run(prog, rep)
+    from ..rules import r_close as _rc
+    _rc.run_fapl(prog, rep)
